@@ -80,6 +80,7 @@ FEATURES_DB = [
     "from t1 | select {id, k} | append (from t2 | select {id, k}) | aggregate {n = count this}",
     "from t1 | select {id, k} | append (from t2 | select {id, k} | take 1) | sort id | take 3",
 ]
+_FINDINGS = None
 PARSER_OF = {"glaredb": "postgres"}
 # constructs of the real dialect that sqlparser 0.60's grammar for it does not accept (trusted-base gaps, not findings)
 PARSER_LIMITATIONS = [
@@ -188,7 +189,15 @@ def _shard(seed, shard, n_rel, corpus_srcs):
                         viols.append({"property": "C07", "symptom": sym, "shape": None, "witness": None, "detail": det, "dupkey": key0})
                         continue
                     seen.add(key0)
-                    if len([1 for v in viols if v.get("witness")]) < 25:
+                    ushape = dl + " :: " + relcheck.shape_of(prog)
+                    attributable = False
+                    if len([1 for v in viols if v.get("witness")]) >= 25:
+                        # past the budget, reduce only what no listed finding already explains unreduced
+                        global _FINDINGS
+                        if _FINDINGS is None:
+                            _FINDINGS = core.load_findings("C07")
+                        attributable = any(f.matches({"property": "C07", "symptom": sym, "shape": ushape}) for f in _FINDINGS)
+                    if not attributable:
                         def fails(c, sym=sym, dialect=dialect):
                             if not relcheck.well_scoped(c, db):
                                 return False
